@@ -142,7 +142,7 @@ def family(tier, rng):
             ("mods2", [("a", "macro-release-cancel", [MK(["lctl", "lsft"], "a"), G(["lctl", "lsft"], "b")])], ("c",), 2, 2),
             ("nestmod", [("a", "macro", [G(S, MK(S, "a"), "b"), 3, "a"])], ("c",), 2, 2),
             ("two_same", [("a", "macro", [G(S, "a", "b")]), ("b", "macro-cancel-on-press", [MK(S, "b"), 1, "a"])], (), 2, 2),
-            ("two_rep", [("a", "macro-repeat", ["a", "b"]), ("b", "macro-repeat-release-cancel", [MK(C, "x")])], ("c",), 2, 2),
+            ("two_rep", [("a", "macro-repeat", ["a", "b"]), ("b", "macro-repeat-release-cancel", [MK(C, "x")])], (), 2, 2),
             ("plain_q3", [("a", "macro", [G(S, "a", 2, "b"), "a"])], ("c",), 3, 3),
             ("ring", [("a", "macro", [G(S, "a", 3, "b"), 3])], (), 4, 2),
         ]
